@@ -27,7 +27,7 @@ type c54Out struct {
 //	weird    trees with metadata the archiver never writes (model correspondence only for the size)
 //	restore  one snapshot, additionally restored for real: bytes and entries found on disk
 func streamC54(h *H) {
-	n := h.N(90, 4500)
+	n := h.N(90, 3000)
 	var r *a7Repo
 	for i := 0; i < n; i++ {
 		if i%40 == 0 {
